@@ -305,7 +305,31 @@ def spellings_of(rx):
     return parts
 
 
+COUT = os.path.join(HERE, '..', 'lean', 'Generated', 'CTables.lean')
+
+
+def write_ctables():
+    """C19: regenerate lean/Generated/CTables.lean from the four `.pyx` back ends
+    (line-structured reader in harness/cpyx.py).  Returns (sha256, changed, data)."""
+    import cpyx
+    try:
+        data = cpyx.extract_all(REPO)
+        text = cpyx.lean_ctables(data)
+    except Exception as e:  # noqa: BLE001
+        # the reader itself failed: empty tables make every C19 obligation fail (never a stale
+        # pass) without disturbing the tables of the other properties
+        data = dict(error=repr(e))
+        text = cpyx.lean_ctables_stub(repr(e))
+    os.makedirs(os.path.dirname(COUT), exist_ok=True)
+    old = open(COUT).read() if os.path.exists(COUT) else None
+    if old != text:
+        with open(COUT, 'w') as f:
+            f.write(text)
+    return hashlib.sha256(text.encode()).hexdigest(), old != text, data
+
+
 def generate():
+    write_ctables()
     bdd_py = os.path.join(REPO, 'dd', 'bdd.py')
     mdd_py = os.path.join(REPO, 'dd', 'mdd.py')
     utils_py = os.path.join(REPO, 'dd', '_utils.py')
